@@ -205,7 +205,7 @@ pub fn gen_matrix(rng: &mut impl Rng, kind: usize, n: usize) -> (Vec<Vec<f64>>, 
             m[i][j] = v; m[j][i] = v; (m, "nonfinite")
         }
         7 => { // scaled towards under/overflow
-            let k = [-1070, -600, -520, -300, 300, 510, 600][rng.gen_range(0..7)];
+            let k = [-1070, -600, -520, -300, -100, -60, -40, 40, 300, 510, 600][rng.gen_range(0..11)];
             let a: Vec<Vec<f64>> = (0..n).map(|_| (0..n).map(|_| rng.gen_range(-1.0..1.0)).collect()).collect();
             let mut m = rtr(&a); for i in 0..n { m[i][i] += 0.5; }
             for i in 0..n { for j in 0..n { m[i][j] *= 2f64.powi(k); } } (m, "scaled")
